@@ -262,3 +262,43 @@ class GetMasked:
 
     def result(c, self, lons, lats, _L=None):
         return c.L.fresh_arr('masked', (lons.shape[0],), 'bool')
+
+
+# ---------------------------------------------------------------------------------------------------
+# C18: a Cartesian region rebuilt from its dictionary form is rebuilt from the same cell origins, in the same order, with
+# the same spacing (the constructor is a function of exactly these: same arguments, same region, same cell numbering)
+# ---------------------------------------------------------------------------------------------------
+@contract
+class RegionDictRoundTrip:
+    qualname = 'lemma:C18:CartesianGrid2D.from_dict(to_dict(region)) rebuilds from the same origins in the same order'
+    case = 'region with any number of cells; from_origins observed through a recording stub'
+    properties = ('C18',)
+
+    def lemma(c):
+        from pyvc.core import Lam, SymList, Obj
+        CG = 'csep.core.regions.CartesianGrid2D'
+        N = c.int('n_cells')
+        c.ctx.assume(N >= 1)
+        LON = z3.Function('origin_lon', z3.IntSort(), z3.RealSort())
+        LAT = z3.Function('origin_lat', z3.IntSort(), z3.RealSort())
+        polys = SymList(N, lambda k: c.obj(None, origin=(LON(to_z3(k)), LAT(to_z3(k)))), 'polygons')
+        dh = c.real('dh')
+        region = c.obj(CG, name='region', dh=dh, polygons=polys)
+        d = c.inline(CG + '.to_dict', region)
+        yield 'dictionary form has the cell origins, the spacing and the class id', z3.BoolVal(
+            isinstance(d, dict) and set(d) >= {'polygons', 'dh', 'class_id', 'name'})
+        seen = {}
+
+        def from_origins(origins, dh=None, magnitudes=None, name=None):
+            seen.update(origins=origins, dh=dh, magnitudes=magnitudes, name=name)
+            return 'rebuilt'
+        stub = c.obj(None, from_origins=Lam(from_origins))
+        r = c.inline(CG + '.from_dict', stub, d)
+        o = seen.get('origins')
+        yield 'the region is rebuilt by from_origins', z3.BoolVal(r == 'rebuilt' and isinstance(o, Arr) and o.ndim == 2)
+        if isinstance(o, Arr) and o.ndim == 2:
+            k = c.ctx.fresh_int('k!sk')
+            yield 'one origin per cell', z3.And(to_z3(o.shape[0]) == N, to_z3(o.shape[1]) == 2)
+            yield 'cell k is rebuilt from the origin of cell k (same order, same coordinates)', z3.Implies(
+                z3.And(0 <= k, k < N), z3.And(to_real(o.f((k, 0))) == LON(k), to_real(o.f((k, 1))) == LAT(k)))
+        yield 'same spacing', to_real(seen.get('dh')) == dh if seen.get('dh') is not None else z3.BoolVal(False)
